@@ -22,9 +22,17 @@ Ltac contra :=
 Definition frame_ends (l : label) : bool :=
   match l with LRecvHeaders _ eos _ _ _ => eos | LRecvData _ eos _ => eos | _ => false end.
 
+Ltac t3get :=
+  first [ rewrite ?kget_put_same, ?kget_insert_same, ?sget_sset_same; reflexivity
+        | eassumption ].
+
 Ltac t3core st k r Hi :=
+  try match goal with
+      | |- context [drop_promises (put ?s ?kk ?r2) ?o ?q] =>
+        let Hd := fresh "Hd" in destruct (drop_put_same s kk r2 o q) as [Hd|Hd]
+      end;
   eexists; split;
-  [ rewrite ?kget_put_same, ?kget_insert_same, ?sget_sset_same; reflexivity
+  [ t3get
   | split;
     [ cbn; auto; fail
     | first [ left; cbn; congruence
